@@ -134,7 +134,7 @@ func runHistory(r *evid.Run, name, backend string, h *ndblab.History, onDisk boo
 func main() {
 	ensureRaceLog()
 	r := evid.Start("C06", "exploration")
-	r.Rule = "sequential: PRNG-generated NodeDB version histories (1-3 state candidates per version derived from the previous finalized state root with remove+re-insert of the same pair, resurrection of pairs removed earlier, unchanged/empty/identical/superset candidates; 0-2 IO candidates from empty whose pairs may coincide with state pairs; arbitrary finalized choice; prune lag 1..3; failing metadata probes; every second history in a clean mode that avoids the shapes already known to damage hashed badger so that badger is also driven to full depth; every tenth with badger-only same-version child roots; every eighth with a long-lived tree object committing one candidate per version and, in a third of the versions, a second tree committing the identical root; every eighth with a long-lived tree whose candidate is finalized in most versions and whose writes embed / un-embed leaves (prefix keys inserted and removed again), remove / re-add embedded leaves and make a leaf the root node and back; every eighth on an on-disk database that is closed and reopened after most versions, pruned with lag >= 2 and compacted with NodeDB.Compact() after prunes) run on badger and pathbadger with a full read-back of every root after every operation; a history is non-trivial when a discarded candidate shares at least one node with a root finalized in the same Finalize and at least one Prune succeeded. concurrent: one writer with H3 delays against reader goroutines, non-trivial when reads overlapped a Finalize and a Prune."
+	r.Rule = "sequential: PRNG-generated NodeDB version histories (1-3 state candidates per version derived from the previous finalized state root with remove+re-insert of the same pair, resurrection of pairs removed earlier, unchanged/empty/identical/superset candidates; 0-2 IO candidates from empty whose pairs may coincide with state pairs; arbitrary finalized choice; prune lag 1..3; failing metadata probes; every second history in a clean mode that avoids the shapes already known to damage hashed badger so that badger is also driven to full depth; every tenth with badger-only same-version child roots; every eighth with a long-lived tree object committing one candidate per version and, in a third of the versions, a second tree committing the identical root; every eighth with a long-lived tree whose candidate is finalized in most versions and whose writes embed / un-embed leaves (prefix keys inserted and removed again), remove / re-add embedded leaves and make a leaf the root node and back; every eighth on an on-disk database that is closed and reopened after most versions, pruned with lag >= 2 and compacted with NodeDB.Compact() after prunes) run on badger and pathbadger with a full read-back of every root after every operation; a history is non-trivial when a discarded candidate shares at least one node with a root finalized in the same Finalize and at least one Prune succeeded. concurrent: one writer with H3 delays against reader goroutines, non-trivial when reads overlapped a Finalize and a Prune; commit-vs-finalize: the late Commit of a competing candidate (batch opened first or second) against a goroutine finalizing the other candidate and continuing with the next version / a prune, one of them parked at a PRNG-chosen H3 point inside Finalize or Commit, non-trivial when the park point was reached."
 	r.Assume("the pure model of root contents (map semantics of insert/remove) is correct; root hashes are taken from tree.Commit of the code under test")
 	r.Assume("SyncGet proofs are verified by the tree's own ProofVerifier (C04 checks the verifier independently)")
 	r.Assume("concurrency is explored by stress with injected delays, not by schedule enumeration; a clean race-detector run is not a proof of race freedom")
@@ -206,6 +206,7 @@ func main() {
 
 	// 3. Concurrent part.
 	runConcurrent(r)
+	runCommitVsFinalizeFamily(r)
 
 	// 4. Race detector reports.
 	reportRaces(r)
